@@ -204,6 +204,10 @@ func (k KnownFile) Match(v *Violation) *KnownFinding {
 // minimisation (delta debugging on the explicit plan)
 // ---------------------------------------------------------------------------
 
+// TargetClass is the violation class a replay or minimisation is after. Checks that report
+// several independent classes per run (C18) skip other open known findings on the way to it.
+var TargetClass string
+
 func clonePlan(p Plan) Plan {
 	b, _ := json.Marshal(p)
 	var q Plan
@@ -215,6 +219,7 @@ func clonePlan(p Plan) Plan {
 func Minimise(spec *PropSpec, seed uint64, cfg Config, plan Plan, class string, budget time.Duration) (Plan, *Violation, int) {
 	deadline := time.Now().Add(budget)
 	tries := 0
+	TargetClass = class
 	fails := func(p Plan) *Violation {
 		tries++
 		r := execCase(spec, seed, cfg, p, true)
@@ -693,6 +698,9 @@ func Replay(path string) int {
 	if spec == nil {
 		fmt.Fprintln(os.Stderr, "unknown property", rf.Property)
 		return 2
+	}
+	if rf.Violation != nil {
+		TargetClass = rf.Violation.Class()
 	}
 	r := execCase(spec, rf.Seed, rf.Config, rf.Plan, true)
 	if r.Viol == nil {
